@@ -298,17 +298,19 @@ PutDo(s) ==
     /\ novel' = novel \cup {c}
     /\ dirty' = TRUE
     /\ gcNew' = IF keeperOn THEN Recorded({c}) ELSE gcNew
-    /\ cache' = Cached({c})
+    /\ UNCHANGED cache
     /\ op' = [op EXCEPT ![s].st = "done"]
     /\ know' = [know EXCEPT ![s] = know[s] \cup {c}]
     /\ UNCHANGED <<refs, oldgen, newgen, root, lastGen, gcState, gcOut, nbsv, gcv, cmd, seen, visiting, cb, errs>>
     /\ Rec(Step("PutDo", s, [c |-> c], "ok"))
-\* the finalizer returned by waitForNotFinalizingGC
+\* WriteValue caches the value it wrote (after ChunkStore.Put returned), then the finalizer returned by
+\* waitForNotFinalizingGC runs
 WriteEnd(s) ==
     /\ op[s].k \in {"putvs", "commit"} /\ op[s].st = "done"
     /\ gcOut' = gcOut - 1
+    /\ cache' = IF op[s].k = "putvs" THEN Cached({op[s].c}) ELSE cache
     /\ op' = [op EXCEPT ![s] = NoOp]
-    /\ UNCHANGED <<refs, store, gcState, gcNew, nbsv, cache, gcv, cmd, know, seen, visiting, cb, errs>>
+    /\ UNCHANGED <<refs, store, gcState, gcNew, nbsv, gcv, cmd, know, seen, visiting, cb, errs>>
     /\ Rec(Step("WriteEnd", s, [k |-> op[s].k], "ok"))
 
 \* tree.NodeStore.Write: ChunkStore.Put without the bracket. memtable.addChunk first, then the keeper; if it says block:
